@@ -568,6 +568,18 @@ func init() {
 		}
 		return out
 	})
+	reg("internal/abi.NoEscape", func(in *Interp, fr *frame, a []Value) Value { return a[0] })
+	reg("strings.Join", func(in *Interp, fr *frame, a []Value) Value {
+		elems, _ := a[0].(Slice)
+		var out Value = ""
+		for i, e := range elems {
+			if i > 0 {
+				out = in.strConcat(out, a[1])
+			}
+			out = in.strConcat(out, e)
+		}
+		return out
+	})
 	reg("strings.Split", func(in *Interp, fr *frame, a []Value) Value {
 		if ss, ok := a[0].(*SymStr); ok {
 			sep, ok2 := a[1].(string)
@@ -642,6 +654,9 @@ func init() {
 		}
 		// The digest is H64(x) ++ G192(x): two uninterpreted functions. Assumption (listed in evidence):
 		// distinct inputs seen on one path differ within the first 8 digest bytes.
+		// Canonical form of the argument (choices lifted out of concatenations, literals merged), so
+		// that equal texts built in different ways are hashed as the same term wherever possible.
+		st = canonStr(st)
 		h := App("H64", 64, st)
 		g := App("G192", 192, st)
 		p := in.path
@@ -654,7 +669,10 @@ func init() {
 		}
 		if fresh {
 			for _, u := range p.hashTerms {
-				in.assumeAxiom(Or(in.strTermEq(st, u), Not(Eq(h, App("H64", 64, u)))))
+				eq := in.strTermEq(st, u)
+				// distinct texts: different first 8 bytes; equal texts (however built): equal digests
+				in.assumeAxiom(Or(eq, Not(Eq(h, App("H64", 64, u)))))
+				in.assumeAxiom(Or(Not(eq), And(Eq(h, App("H64", 64, u)), Eq(g, App("G192", 192, u)))))
 			}
 			p.hashTerms = append(p.hashTerms, st)
 		}
